@@ -123,7 +123,7 @@ def main(argv=None):
 
     mod = importlib.import_module(f"vmon.props.{prop.lower()}")
     if args.replay:
-        rep = json.loads(Path(args.replay).read_text())
+        rep = core.decode_specials(json.loads(Path(args.replay).read_text()))
         specs = [{"name": "replay", "replay": rep, "tier": args.tier, "seed": seed,
                   "timeout_s": 1800}]
     else:
